@@ -172,6 +172,16 @@ func ReuseWAL(cfg *config.Config, dir string, nextSeq uint64) (*WAL, error) {
 	// Try the most recent one (last in sorted order)
 	latestWAL := files[len(files)-1]
 
+	// Never append behind a damaged tail (a record torn by a crash): the
+	// bytes appended after it would be unreadable at the next recovery. Such
+	// a file is left as it is and a new log file is started instead.
+	if !tailIntact(latestWAL) {
+		if !DisableRecoveryLogs {
+			fmt.Printf("Latest WAL file %s has a damaged tail, not reusing it\n", latestWAL)
+		}
+		return nil, nil
+	}
+
 	// Try to open for append
 	file, err := os.OpenFile(latestWAL, os.O_RDWR|os.O_APPEND, 0644)
 	if err != nil {
@@ -221,6 +231,22 @@ func ReuseWAL(cfg *config.Config, dir string, nextSeq uint64) (*WAL, error) {
 	}
 
 	return wal, nil
+}
+
+// tailIntact reports whether every record of the WAL file can be read up to
+// a clean end of file.
+func tailIntact(path string) bool {
+	reader, err := OpenReader(path)
+	if err != nil {
+		return false
+	}
+	defer reader.Close()
+
+	for {
+		if _, err := reader.ReadEntry(); err != nil {
+			return err == io.EOF
+		}
+	}
 }
 
 // Append adds an entry to the WAL
